@@ -42,7 +42,8 @@ BOUNDED-EXHAUSTIVE (kernel evaluation of the executable machine, `_partial`; Lem
   does not have yet.
 
 WITNESSES of the hypotheses / of approximate restoration (each replayed on the Go code, corpus/C14/treeundo-*.trace)
-  * `tree_undo_do_surrogate_witness`: non-BMP text (listed finding c19-surrogate): do;undo shows two U+FFFD.
+  * `tree_undo_do_surrogate_witness`: an edit boundary inside a surrogate pair (listed finding c19-surrogate-cut): do;undo
+    shows two U+FFFD.
   * `tree_style_undo_approx_witness`: the undo of a Style restores the FIRST styled node's previous value on every node.
   * `tree_style_no_reverse_witness`: a RemoveStyle that visibly changes the document pushes no undo entry.
 -/
@@ -292,7 +293,9 @@ def doUndoXML (init : List JItem) (c : Call) : Option (Str × Str) :=
 
 set_option maxRecDepth 100000 in
 /-- **the BMP hypothesis is forced**: on `<p>😀ab</p>` deleting the first UTF-16 unit of the emoji and undoing it shows
-    `<p>��ab</p>` (listed finding c19-surrogate; corpus/C14/treeundo-surrogate-witness.trace) -/
+    `<p>��ab</p>`: the edit boundary lies INSIDE the surrogate pair, `SplitText` cuts it and both halves are re-decoded to
+    U+FFFD for good (listed finding c19-surrogate-cut; the length defect c19-surrogate is repaired, 0e18e1d8;
+    corpus/C14/treeundo-surrogate-witness.trace) -/
 theorem tree_undo_do_surrogate_witness :
     (doUndoXML docSur (Call.edit 1 2 [] 0)).map (fun p => (p.1 == p.2, p.2)) =
       some (false, "<root><p>��ab</p></root>".toList.map Char.toNat) := by decide +kernel
